@@ -735,6 +735,8 @@ class Interp:
                     return list(x.info["pop"])
                 if isinstance(x, Int) and x.is_conc() and x.val == 0:
                     return []
+                if isinstance(x, Int) and x.sf is not None and len(x.sf) == 1 and x.sf[0][0] == 0 and len(x.sf[0][2]) < (1 << x.sf[0][1]):
+                    return list(x.sf[0][2])         # counted in the register: one exact counter in the low bits
                 return None
             pa, pb = pop_of(a), pop_of(b)
             if pa is not None and pb is not None:
